@@ -453,6 +453,9 @@ func (v *Verifier) ringIsZero(x *Term) *Term {
 	if x.IsConst() && x.K.Sign() == 0 {
 		return v.F.True()
 	}
+	if x.IsConst() && v.F.ModQ != nil {
+		return v.F.Bool(new(big.Int).Mod(x.K, v.F.ModQ).Sign() == 0)
+	}
 	return v.F.App("ring.iszero", SBool, x)
 }
 
@@ -469,6 +472,14 @@ func (v *Verifier) ringNR(t types.Type) *Term {
 }
 
 func (v *Verifier) ringInv(x *Term) *Term {
+	if x.IsConst() && v.F.ModQ != nil {
+		// the library's Inverse maps 0 to 0
+		r := new(big.Int).ModInverse(new(big.Int).Mod(x.K, v.F.ModQ), v.F.ModQ)
+		if r == nil {
+			r = big.NewInt(0)
+		}
+		return v.F.Int(r)
+	}
 	v.ringFacts["inv"] = true
 	return v.F.App("ring.inv", SInt, x)
 }
